@@ -308,12 +308,19 @@ SOURCES = [
     # sampling operators: the built model draws a fresh sample on every run, so nothing may be claimed from one
     "random_uniform", "random_normal", "random_uniform_like", "random_normal_like", "multinomial", "bernoulli", "dropout",
     "dropout_mask",
+    # (outside round 7) the same with EVERY optional attribute set (seed in particular, dtype where there is one):
+    # a seeded sampler is still a sampler - the runtime draws its own sample, another one on each run
+    "random_uniform_seeded", "random_normal_seeded", "random_uniform_like_seeded", "random_normal_like_seeded",
+    "multinomial_seeded", "bernoulli_seeded", "dropout_seeded", "dropout_mask_seeded",
 ]
 NONE_QUICK = ("const", "computed", "inline_arith", "if_const", "default", "multinomial", "shape_static", "loop_const", "init")
 RANDOM_SOURCES = ("random_uniform", "random_normal", "random_uniform_like", "random_normal_like", "multinomial", "bernoulli",
-                  "dropout", "dropout_mask")
+                  "dropout", "dropout_mask",
+                  "random_uniform_seeded", "random_normal_seeded", "random_uniform_like_seeded", "random_normal_like_seeded",
+                  "multinomial_seeded", "bernoulli_seeded", "dropout_seeded", "dropout_mask_seeded")
 # sources whose value exists at compile time (or could): the ones worth the slow ONNXRUNTIME backend in the quick tier
-ORT_QUICK = ("computed", "inline_loop_break", "default", "shape_symbolic", "if_const", "if_const_false", "multinomial", "random_uniform")
+ORT_QUICK = ("computed", "inline_loop_break", "default", "shape_symbolic", "if_const", "if_const_false", "multinomial", "random_uniform",
+             "random_uniform_seeded", "bernoulli_seeded")
 GROUPS = ["safe", "risky"]
 BACKENDS = ["REFERENCE", "ONNXRUNTIME", "NONE"]
 
@@ -396,21 +403,26 @@ def _source(op, kind: str, args: dict):
         def to_k(v):  # floor of a float sample in [0, 5)
             return op.reshape(op.cast(op.floor(op.clip(v, op.const(f32(0.0)), op.const(f32(4.9)))), to=I64), scalar)
 
-        if kind == "random_uniform":
-            return to_k(op.random_uniform(low=0.0, high=5.0, shape=[1]))
-        if kind == "random_normal":
-            return to_k(op.random_normal(mean=2.5, scale=2.0, shape=[1]))
-        if kind == "random_uniform_like":
-            return to_k(op.random_uniform_like(op.const(np.zeros((1,), f32)), low=0.0, high=5.0))
-        if kind == "random_normal_like":
-            return to_k(op.random_normal_like(op.const(np.zeros((1,), f32)), mean=2.5, scale=2.0))
-        if kind == "multinomial":
-            return op.reshape(op.multinomial(op.const(np.zeros((1, 5), f32)), dtype=np.int64, sample_size=1), scalar)
-        if kind == "bernoulli":
-            b = op.cast(op.bernoulli(op.const(np.full((1,), 0.5, f32))), to=I64)
+        seeded = kind.endswith("_seeded")
+        base_kind = kind[: -len("_seeded")] if seeded else kind
+        sd = {"seed": 7.0} if seeded else {}           # float attribute `seed`
+        dt = {"dtype": np.float32} if seeded else {}   # the other optional attribute of the samplers
+        if base_kind == "random_uniform":
+            return to_k(op.random_uniform(low=0.0, high=5.0, shape=[1], **sd, **dt))
+        if base_kind == "random_normal":
+            return to_k(op.random_normal(mean=2.5, scale=2.0, shape=[1], **sd, **dt))
+        if base_kind == "random_uniform_like":
+            return to_k(op.random_uniform_like(op.const(np.zeros((1,), f32)), low=0.0, high=5.0, **sd, **dt))
+        if base_kind == "random_normal_like":
+            return to_k(op.random_normal_like(op.const(np.zeros((1,), f32)), mean=2.5, scale=2.0, **sd, **dt))
+        if base_kind == "multinomial":
+            return op.reshape(op.multinomial(op.const(np.zeros((1, 5), f32)), dtype=np.int64, sample_size=1, **sd), scalar)
+        if base_kind == "bernoulli":
+            b = op.cast(op.bernoulli(op.const(np.full((1,), 0.5, f32)), **sd, **dt), to=I64)
             return op.reshape(op.add(op.mul(b, op.const(_i(3))), op.const(_i(1))), scalar)  # 1 or 4
-        out, mask = op.dropout(op.const(np.ones((8,), f32)), op.const(f32(0.5)), op.const(np.array(True)))
-        kept = op.cast(mask, to=I64) if kind == "dropout_mask" else op.cast(op.greater(out, op.const(f32(0.0))), to=I64)
+        out, mask = op.dropout(op.const(np.ones((8,), f32)), op.const(f32(0.5)), op.const(np.array(True)),
+                               **({"seed": 7} if seeded else {}))
+        kept = op.cast(mask, to=I64) if base_kind == "dropout_mask" else op.cast(op.greater(out, op.const(f32(0.0))), to=I64)
         return op.reduce_sum(kept, keepdims=0)  # how many of the 8 entries survived
     if kind in ("if_const", "if_input", "if_const_false"):
         c = inp("c", {"e": "bool", "s": []}) if kind == "if_input" else op.const(np.array(kind == "if_const"))
